@@ -20,6 +20,7 @@ pub mod world;
 pub mod cmd_instr;
 pub mod cmd_joypad;
 pub mod cmd_timer;
+pub mod cmd_lcd;
 
 fn main() {
   let args: Vec<String> = std::env::args().collect();
@@ -30,6 +31,7 @@ fn main() {
     "joypad-trace" => cmd_joypad::trace(&args[2..]),
     "timer-trace" => cmd_timer::trace(&args[2..]),
     "timer-partitions" => cmd_timer::partitions(&args[2..]),
+    "lcd-trace" => cmd_lcd::trace(&args[2..]),
     "version" => println!("gbv jit={}", cfg!(feature = "jit")),
     _ => { eprintln!("usage: gbv <command> ..."); std::process::exit(2); }
   }
